@@ -47,10 +47,14 @@ def dispatch : Dispatch := fun W op args =>
     pure (chk (natToHex (((ofNat W x).mul W s).value W)) (natToHex (x * x * x)))
   | "u.pow", [a, e] => do
     let x ← parseNat a; let n ← parseDecNat e
-    pure (chk (natToHex ((ubigPow W (ofNat W x) n).value W)) (natToHex (x ^ n)))
+    match ubigPowChecked W (ofNat W x) n with
+    | .ok r => pure (chk (natToHex (r.value W)) (natToHex (x ^ n)))
+    | .error k => pure (panic k.name)
   | "i.pow", [a, e] => do
     let x ← parseInt a; let n ← parseDecNat e
-    pure (chk (sreprToStr W (ibigPow W (.ofInt W x) n)) (intToHex (x ^ n)))
+    match ibigPowChecked W (.ofInt W x) n with
+    | .ok r => pure (chk (sreprToStr W r) (intToHex (x ^ n)))
+    | .error k => pure (panic k.name)
   | "i.add", [a, b] => do
     let x ← parseInt a; let y ← parseInt b
     let m := forms3 fun f => sreprToStr W (ibigAdd W (.ofInt W x) (.ofInt W y) f)
